@@ -157,7 +157,9 @@ impl MtuDiscovery {
             return false;
         }
 
-        self.current_mtu = self.black_hole_detector.min_mtu;
+        // Fall back to `min_mtu`, but never raise the estimate: it may already have been clamped
+        // below `min_mtu` by the peer's `max_udp_payload_size`
+        self.current_mtu = self.current_mtu.min(self.black_hole_detector.min_mtu);
 
         if let Some(state) = &mut self.state {
             state.on_black_hole_detected(now);
